@@ -252,6 +252,12 @@ def res_cases(tier: str, rng: random.Random) -> List[Dict[str, Any]]:
             for n, consume in ((1, "measure"), (2, "mixed"), (3, "free")) if tier != "quick" else ((2, "mixed"),):
                 out.append(dict(kind="res", reqs=[dict(api=api, role=role, kind=kind, n=n, node=1, socket=0)],
                                 salt=rng.randrange(1 << 20), expect=False, consume=consume))
+    # the handles are read late: after a later subroutine of the same connection made requests of its own, or after the
+    # connection was closed and the next connection of the same application (same controller) made its requests
+    for api, role, kind in RES_APIS:
+        for n, later in ((2, "flush"), (1, "connection")) if tier == "quick" else ((1, "flush"), (2, "flush"), (3, "flush"), (1, "connection"), (2, "connection")):
+            out.append(dict(kind="res", reqs=[dict(api=api, role=role, kind=kind, n=n, node=1, socket=0)],
+                            salt=rng.randrange(1 << 20), expect=bool(n % 2), later=later))
     # the same, with the responses handed to the executor as qlink-interface 1.0 objects (the conversion path)
     for api, role, kind in RES_APIS:
         for n in (1, 2, 3) if tier != "quick" else (2,):
@@ -282,8 +288,8 @@ def _run_res(item):
         total = sum(r["n"] for r in c["reqs"])
         # physical qubits the link says it used: any order, all different
         physs = rng.sample(range(8), total)
-        bells = [rng.randrange(4) for _ in range(total)]
-        outs = [rng.randrange(2) for _ in range(total)]
+        bells = [rng.randrange(4) for _ in range(total + 4)]
+        outs = [rng.randrange(2) for _ in range(total + 4)]
         salt = rng.randrange(50)
 
         def fields(k, kind):
@@ -381,12 +387,34 @@ def _run_res(item):
             row["fault"] = True
             row["exc"] = str(exc)[:200]
             return row
+        first_end = len(conn.link.log)
+        um = list(ex._qubit_unit_modules.get(conn.app_id, []))
+        if c.get("later"):
+            try:
+                if c["later"] == "flush":
+                    later_ = socks[0].create_measure(3)
+                    extra_ = conn.new_array(4, init_values=[9, 8, 7, 6])
+                    conn.flush()
+                else:
+                    conn.close()
+                    sock2 = EPRSocket(NODE[c["reqs"][0]["node"]], epr_socket_id=c["reqs"][0]["socket"])
+                    conn2 = rig.VConnection("alice", ctrl=conn.ctrl, successor=True, max_qubits=8, epr_sockets=[sock2])
+                    conn2.stack.get_purpose_id = conn.stack.get_purpose_id
+                    conn2.link = rig.AutoLink(ex, conn2.stack, bell=[3 - b for b in bells], outcomes=[1 - o for o in outs],
+                                              fields=lambda k, kind: {k_: v_ + 1000 if k_ != "logical_qubit_id" else v_ for k_, v_ in fields(k, kind).items()})
+                    later_ = sock2.create_measure(3)
+                    extra_ = conn2.new_array(4, init_values=[9, 8, 7, 6])
+                    conn2.flush()
+                _ = [m_.raw_measurement_outcome.value for m_ in later_]
+            except (rig.ControllerFault, rig.Stuck) as exc:
+                row["fault"] = True
+                row["exc"] = "later: " + str(exc)[:200]
+                return row
         # responses per request, in pair order (match by remote node and purpose id)
-        log = conn.link.log[first_run:]
+        log = conn.link.log[first_run:first_end]
         for r in c["reqs"]:
             mine = [x for x in log if x.remote_node_id == r["node"] and x.purpose_id == PURPOSE(r["node"], r["socket"])]
             row["responses"].append([[_val(v) for v in x] for x in mine])
-        um = ex._qubit_unit_modules.get(conn.app_id, [])
         for ri, (r, (what, hs, infos)) in enumerate(zip(c["reqs"], handles)):
             for pi, hnd in enumerate(hs):
                 def ob(name, v):
@@ -478,7 +506,7 @@ def run(prop: str, tier: str) -> int:
 
 
 def replay_case(prop, case, tmp):
-    keep = ("kind", "ps", "reqs", "salt", "expect", "reverse", "q10", "consume", "earlier_run", "rerun")
+    keep = ("kind", "ps", "reqs", "salt", "expect", "reverse", "q10", "consume", "earlier_run", "rerun", "later")
     row = _dispatch((1, {k: case[k] for k in keep if k in case}))
     res = C.run_tlc_sharded("EprFields", [row], tmp, shards=1, cfg="EprFields.cfg")
     return res.verdicts[0][1] if res.verdicts else None
